@@ -4,7 +4,7 @@
    with a row pitch; `block_image` for block formats.  The implementation is compared with
    blit(prefill, crop(rect, map chmap (native full decode))) for all 73 formats (harness tag 5). *)
 From Coq Require Import ZArith List Bool Lia.
-From DDSV Require Import base.Machine model.Layout model.DecodeScript model.Crop proofs.CropProofs.
+From DDSV Require Import base.Machine model.Layout model.DecodeScript model.Crop model.RectPath proofs.CropProofs proofs.RectPathProofs.
 Import ListNotations.
 Local Open Scope Z_scope.
 
@@ -59,9 +59,62 @@ Proof. exact rect_block_rows_cover. Qed.
 Theorem C05_rect_block_rows_minimal : forall oy h bh k, (1 <= bh -> 1 <= h -> oy / bh <= k < dceil (oy + h) bh -> exists y, oy <= y < oy + h /\ y / bh = k)%N.
 Proof. exact rect_block_rows_minimal. Qed.
 
+(* ---- the block code paths themselves (model/RectPath.v: for_each_block_rect_untyped, for_each_block_untyped,
+   ChannelConversionBuffer::process_blocks, general_process_blocks, handle_width_offset, process_4x4_blocks_helper,
+   process_2x1_blocks_helper; tied to the code by the call traces of harness tag 51).  For EVERY block size, block
+   decoder `dec`, per-pixel channel conversion `cv`, surface size, rectangle, conversion buffer size and data: the
+   rectangle path yields exactly the crop of the specification image, the full path yields the specification image,
+   and no placement check of the model fails (the calls tile each row, the block lines tile the rectangle). *)
+Theorem C05_rect_path_is_crop : forall (A B : Type) (bw bh bpb : nat) (dec : list Z -> list A) (cv : A -> B),
+  (1 <= bw)%nat -> (1 <= bh)%nat -> (1 <= bpb)%nat -> (forall b, length (dec b) = bw * bh)%nat ->
+  forall f : rowfn A, rowfn_ok A bw bh dec f ->
+  forall (bufbytes bbpp : nat) (conv : bool), (conv = true -> 1 <= bbpp /\ bw * bh * bbpp <= bufbytes)%nat ->
+  forall (W H : nat) (data : list Z), (1 <= W)%nat -> (length data = cdiv W bw * bpb * cdiv H bh)%nat ->
+  forall ox oy w h : nat, (ox + w <= W)%nat -> (oy + h <= H)%nat -> (1 <= w)%nat -> (1 <= h)%nat ->
+  rect_image A B bw bh bpb cv f conv bufbytes bbpp W H ox oy w h data = Some (crop_of ox oy w h (spec_image A B bw bh bpb dec cv W H data)).
+Proof. exact rect_image_is_crop. Qed.
+Theorem C05_full_path_is_spec : forall (A B : Type) (bw bh bpb : nat) (dec : list Z -> list A) (cv : A -> B),
+  (1 <= bw)%nat -> (1 <= bh)%nat -> (1 <= bpb)%nat -> (forall b, length (dec b) = bw * bh)%nat ->
+  forall f : rowfn A, rowfn_ok A bw bh dec f ->
+  forall (bufbytes bbpp : nat) (conv : bool), (conv = true -> 1 <= bbpp /\ bw * bh * bbpp <= bufbytes)%nat ->
+  forall (W H : nat) (data : list Z), (1 <= W)%nat -> (length data = cdiv W bw * bpb * cdiv H bh)%nat -> (1 <= H)%nat ->
+  full_image A B bw bh bpb cv f conv bufbytes bbpp W H data = Some (spec_image A B bw bh bpb dec cv W H data).
+Proof. exact full_image_is_spec. Qed.
+(* the three ProcessBlocksFn helpers meet the row contract the two theorems above ask of `f`: the general loop
+   (ASTC, 8x1), the 4x4 helper with or without its aligned fast path (BC1-BC7), the 2x1 helper (sub-sampled) *)
+Theorem C05_general_process_blocks_ok : forall (A : Type) (bw bh bpb : nat) (dec : list Z -> list A),
+  (1 <= bw)%nat -> (1 <= bh)%nat -> (1 <= bpb)%nat -> (forall b, length (dec b) = bw * bh)%nat -> rowfn_ok A bw bh dec (gpb_row A bw dec).
+Proof. exact gpb_row_ok. Qed.
+Theorem C05_process_4x4_blocks_ok : forall (A : Type) (dec : list Z -> list A), (forall b, length (dec b) = 4 * 4)%nat ->
+  forall fast : bool, rowfn_ok A 4 4 dec (p44_row A 4 dec fast).
+Proof. exact p44_row_ok. Qed.
+Theorem C05_process_2x1_blocks_ok : forall (A : Type) (dec : list Z -> list A), (forall b, length (dec b) = 2 * 1)%nat ->
+  rowfn_ok A 2 1 dec (p2x1_row A dec).
+Proof. exact p2x1_row_ok. Qed.
+(* the specification image is the block image: pixel (x, y) is entry (y mod bh) * bw + x mod bw of block (x / bw, y / bh) *)
+Theorem C05_spec_image_pixel : forall (A B : Type) (bw bh bpb : nat) (dec : list Z -> list A) (cv : A -> B),
+  (1 <= bw)%nat -> (1 <= bh)%nat -> (1 <= bpb)%nat -> (forall b, length (dec b) = bw * bh)%nat ->
+  forall W H data x y d, (length data = cdiv W bw * bpb * cdiv H bh)%nat -> (x < W)%nat -> (y < H)%nat ->
+  nth x (nth y (spec_image A B bw bh bpb dec cv W H data) []) (cv d)
+  = cv (nth ((y mod bh) * bw + x mod bw) (dec (slice (((y / bh) * cdiv W bw + x / bw) * bpb) bpb data)) d).
+Proof. exact spec_image_pixel. Qed.
+(* the fixed 3072-byte conversion buffer satisfies the buffer premise for every block size up to 12 x 12 and every
+   native pixel size up to 16 bytes (the debug_assert `buffer_size.width >= block_width`) *)
+Theorem C05_buffer_fits : forall bw bh bbpp, (bw <= 12 -> bh <= 12 -> bbpp <= 16 -> bw * bh * bbpp <= 3072)%nat.
+Proof. intros bw bh bbpp H1 H2 H3. assert (bw * bh <= 144)%nat by nia. nia. Qed.
+(* non-vacuity: a 7 x 6 surface of 4 x 4 blocks, conversion through a 40-byte buffer, rectangle (2, 1, 5, 4) *)
+Example C05_rect_path_ex :
+  let dec := fun b : list Z => map (fun i => (hd 0 b * 100 + Z.of_nat i)%Z) (seq 0 16) in
+  let data := map Z.of_nat (seq 1 4) in
+  rect_image Z Z 4 4 1 (fun v => (v + 1)%Z) (p44_row Z 4 dec true) true 40 1 7 6 2 1 5 4 data
+  = Some (crop_of 2 1 5 4 (spec_image Z Z 4 4 1 dec (fun v => (v + 1)%Z) 7 6 data))
+  /\ nth 3 (nth 2 (crop_of 2 1 5 4 (spec_image Z Z 4 4 1 dec (fun v => (v + 1)%Z) 7 6 data)) []) 0 = 214%Z.
+Proof. split; vm_compute; reflexivity. Qed.
+
 Example C05_ex : blit [9; 9; 9; 9; 9; 9; 9; 9] 1 3 (crop 1 0 1 2 (map_px (chmap [255] [0] 0 2) [[[[1]]; [[2]]]; [[[3]]; [[4]]]])) = [9; 2; 2; 2; 4; 4; 4; 9].
 Proof. reflexivity. Qed.
 
 Definition C05_all := (C05_chmap_via_rgba, C05_chmap_id, C05_chmap_length, C05_crop_pixel, C05_crop_crop, C05_crop_map_px,
-  C05_blit_outside, C05_blit_covered, C05_block_pixel_local, C05_block_rect_script_rows, C05_rect_block_rows_cover, C05_rect_block_rows_minimal).
+  C05_blit_outside, C05_blit_covered, C05_block_pixel_local, C05_block_rect_script_rows, C05_rect_block_rows_cover, C05_rect_block_rows_minimal,
+  C05_rect_path_is_crop, C05_full_path_is_spec, C05_general_process_blocks_ok, C05_process_4x4_blocks_ok, C05_process_2x1_blocks_ok, C05_spec_image_pixel, C05_buffer_fits).
 Redirect "props/C05.assumptions" Print Assumptions C05_all.
